@@ -16,7 +16,7 @@
 (*           replacing every quantity by its SI number: the result is the    *)
 (*           SI value of the expression taken as a quantity.                 *)
 (*  "temp":  Celsius <-> kelvin with the offset 273.15 (temperatures in      *)
-(*           hundredths of a degree).                                        *)
+(*           millionths of a degree).                                        *)
 (*                                                                          *)
 (* harness/c07.py replays every behaviour into the real convert_to /         *)
 (* convert_to_si / convert_to_float / evaluate_expression / to_kelvin /      *)
@@ -28,8 +28,8 @@ CONSTANTS UnitNames,    \* subset of DOMAIN Units
           MaxChain,     \* conversions per chain
           ExprOps,      \* subset of {"mul", "div", "add", "sub", "sq", "scale"}
           ExprUnits, ExprVals,   \* unit and value of the second operand of an expression
-          Temps         \* temperatures the Celsius/kelvin machine starts from, written as 30000 + hundredths of
-                        \* a degree (cfg files hold no negative numbers)
+          Temps         \* temperatures the Celsius/kelvin machine starts from, written as 300000000 + millionths
+                        \* of a degree (cfg files hold no negative numbers)
 
 VARIABLES mode, start, cur, chain, err, expr, temp
 vars == <<mode, start, cur, chain, err, expr, temp>>
@@ -85,7 +85,7 @@ ConvertTo(q, u)   == RDiv(q.v, u.v)          \* the number n with n * u = q   (o
 ToSI(q)           == q.v                     \* the SI unit of a dimension has value 1
 TimesUnit(n, u)   == U(RMul(n, u.v), u.d)    \* the quantity "n units"
 
-KOffset == 27315                             \* 273.15 in hundredths
+KOffset == 273150000                         \* 273.15 in millionths of a degree
 ToKelvin(c)   == c + KOffset
 FromKelvin(k) == k - KOffset
 
@@ -105,7 +105,7 @@ InitChain == /\ mode = "chain"
              /\ err = FALSE /\ expr = NoExpr /\ temp = NoTemp
 InitTemp == /\ mode = "temp"
             /\ \E t \in Temps, s \in {"C", "K"} :
-                  temp = [t0 |-> t - 30000, s0 |-> s, scale |-> s, v |-> t - 30000, steps |-> 0]
+                  temp = [t0 |-> t - 300000000, s0 |-> s, scale |-> s, v |-> t - 300000000, steps |-> 0]
             /\ start = NoStart /\ cur = NoCur /\ chain = <<>> /\ err = FALSE /\ expr = NoExpr
 Init == InitChain \/ InitTemp
 
